@@ -34,7 +34,8 @@ PROPS = {
         "assumptions": [
             "T: POSIX semantics of open(2)/write as stated in prelude/fs.rs (no O_TRUNC keeps the old tail; mode applies at creation)",
             "T: KeyPair::private_key_to_pem / from_pem are inverse where defined (uninterpreted key_pem / pem_key)",
-            "X: crash points (a write interrupted half-way); the file name/path text produced by get_file_full_path (template rendering)",
+            "T: minijinja rendering of the name format and base64url of the account name are uninterpreted functions of their inputs (get_file_full_path itself is verified)",
+            "X: crash points (a write interrupted half-way)",
         ],
     },
     "C10": {
@@ -186,7 +187,7 @@ PROPS = {
         ],
     },
     "C05": {
-        "units": ["chalproof", "schedule", "ident", "issue", "revdns"],
+        "units": ["chalproof", "schedule", "ident", "issue", "revdns", "keys"],
         "design_ref": "DESIGN.md section 5 C05",
         "technique": "Verus function contracts: proof strings against RFC 8555 section 8 / RFC 8737 texts pinned in the contract; entry lookup against a spec function of (identifier, wildcard flag)",
         "text": "Deductive proof that the key authorization is token.base64url(SHA-256(thumbprint input)), that http-01 / dns-01 / tls-alpn-01 "
@@ -214,7 +215,7 @@ PROPS = {
         ],
     },
     "C07": {
-        "units": ["renew", "schedule", "issue"],
+        "units": ["renew", "schedule", "issue", "http"],
         "design_ref": "DESIGN.md section 5 C07",
         "technique": "Verus function contracts over ghost counters (requests, post-operation runs, time slept since the last request)",
         "text": "Deductive proof that one task step performs exactly one request and exactly one post-operation hook run, reports success iff "
